@@ -26,7 +26,23 @@ impl File {
             final(ptx)@ == old(ptx)@, final(ptx).spec_env() == old(ptx).spec_env(),
             ret matches Ok(f) ==> f.id == id && old(ptx)@.files.contains_key(id)
                 && f.rec() == always_rule(old(ptx)@.files[id], old(ptx).spec_env().runid),
-            ret matches Err(e) ==> old(ptx)@.files.contains_key(id) ==> e.kind() == RedoErrorKind::Other,
+            ret matches Err(e) ==> old(ptx)@.files.contains_key(id) ==> e.kind() == RedoErrorKind::Generic,
+    { unimplemented!() }
+
+    /// TRUSTED (SQL select by name, insert-if-absent, re-select; name normalised relative to the project base):
+    /// returns the row named norm_name(name); adds a fresh row when absent and allow_add.
+    #[verifier::external_body]
+    pub fn from_name(ptx: &mut ProcessTransaction, name: &RedoPath, allow_add: bool) -> (ret: Result<File, RedoError>)
+        ensures
+            final(ptx).spec_env() == old(ptx).spec_env(), final(ptx)@.deps == old(ptx)@.deps,
+            ret matches Ok(f) ==> {
+                &&& final(ptx)@.files.contains_key(f.id) && f.rec() == always_rule(final(ptx)@.files[f.id], old(ptx).spec_env().runid)
+                &&& f.name@ == norm_name(old(ptx).spec_env(), name@)
+                &&& (old(ptx)@.files.contains_key(f.id) ==> final(ptx)@.files == old(ptx)@.files)
+                &&& (!old(ptx)@.files.contains_key(f.id) ==> allow_add && final(ptx)@.files == old(ptx)@.files.insert(f.id, fresh_rec(f.name@)))
+                &&& (forall|i: i64| #[trigger] final(ptx)@.files.contains_key(i) && final(ptx)@.files[i].name == f.name@ ==> i == f.id)
+            },
+            ret is Err ==> final(ptx)@.files == old(ptx)@.files,
     { unimplemented!() }
 
     /// TRUSTED (stat / lstat of base/name): the stamp of the file as it is now.
